@@ -347,14 +347,22 @@ pub fn check_maximal<D>(
 pub fn check_join_log(nodes: &[NodeView<Pay>], log: &SpecLog) -> Result<(), String> {
     let mut uf: HashMap<u32, u32> = HashMap::new();
     fn find(uf: &mut HashMap<u32, u32>, x: u32) -> u32 {
-        let mut x = x;
+        // iterative find with full path compression (a 10^5-node line would otherwise be quadratic)
+        let mut root = x;
         loop {
-            let p = *uf.entry(x).or_insert(x);
-            if p == x {
-                return x;
+            let p = *uf.entry(root).or_insert(root);
+            if p == root {
+                break;
             }
-            x = p;
+            root = p;
         }
+        let mut cur = x;
+        while cur != root {
+            let p = uf[&cur];
+            uf.insert(cur, root);
+            cur = p;
+        }
+        root
     }
     for (a, b, r) in &log.joins {
         if *r {
@@ -575,6 +583,17 @@ pub fn check_edges<K: Kmer, D: Debug>(
     expected_adj: Option<&BTreeSet<S>>,
     require_resolved: bool,
 ) -> Result<EStats, String> {
+    check_edges_opts(g, expected_adj, require_resolved, true)
+}
+
+/// `symmetry = false`: for graphs whose extensions were deliberately pruned one-sidedly
+/// (fix_exts against a valid-node set keeps the invalid nodes' own extensions)
+pub fn check_edges_opts<K: Kmer, D: Debug>(
+    g: &DebruijnGraph<K, D>,
+    expected_adj: Option<&BTreeSet<S>>,
+    require_resolved: bool,
+    symmetry: bool,
+) -> Result<EStats, String> {
     let k = K::k();
     let stranded = g.base.stranded;
     let seqs: Vec<S> = (0..g.len()).map(|i| g.get_node(i).sequence().bytes()).collect();
@@ -684,7 +703,7 @@ pub fn check_edges<K: Kmer, D: Debug>(
         reported.push(per_side);
     }
     // symmetry
-    for u in 0..g.len() {
+    for u in 0..(if symmetry { g.len() } else { 0 }) {
         for side in [L, R] {
             for e in &reported[u][side as usize] {
                 let (v, vin, flip) = *e;
